@@ -871,6 +871,7 @@ func c16Generate(cfg Config, rep *Report, r *Rng) {
 	c16NilRecursion(rep)
 	c16NilArgs(cfg, rep, NewRng(cfg.Seed).Fork(1603))
 	c16Histories(cfg, rep, NewRng(cfg.Seed).Fork(1604))
+	c16ScopeHistories(cfg, rep, NewRng(cfg.Seed).Fork(1605))
 	gn := &c16Gen{r: NewRng(cfg.Seed).Fork(1602)} // its own stream: the cases below this line are the same as before
 	g := &c16Gen{r: r}
 	nf := cfg.N(2500, 30000)
